@@ -27,11 +27,11 @@ for d in sorted(glob.glob(os.path.join(src, "refactor*.diff"))):
             r["checks"][p] = dict(rc=c.returncode, violations=viol, detail=und[:4])
         r["quiet"] = all(v["rc"] != 1 and not v["violations"] for v in r["checks"].values())
         res[key] = r
-        shutil.copy(d, os.path.join(dst, key))
+        if os.path.realpath(d) != os.path.realpath(os.path.join(dst, key)): shutil.copy(d, os.path.join(dst, key))
         print(key, "quiet" if r["quiet"] else "FALSE ALARM", {p: v["rc"] for p, v in r["checks"].items()}, flush=True)
         for p, v in r["checks"].items():
             if v["rc"] == 1: print("   ", p, v["violations"][:2], v["detail"][:2], flush=True)
     finally:
         sh("git -C /repo worktree remove --force %s" % wt); shutil.rmtree(wt, ignore_errors=True)
-if os.path.exists(os.path.join(src, "NOTES.md")): shutil.copy(os.path.join(src, "NOTES.md"), os.path.join(dst, "NOTES.md"))
+if os.path.exists(os.path.join(src, "NOTES.md")) and os.path.realpath(src) != os.path.realpath(dst): shutil.copy(os.path.join(src, "NOTES.md"), os.path.join(dst, "NOTES.md"))
 json.dump(dict(name=name, properties=pids, at=time.strftime("%Y-%m-%d %H:%M:%S"), results=res), open(os.path.join(dst, "meta.json"), "w"), indent=1)
